@@ -104,9 +104,23 @@ def gen_case(rng, patterns_p=0.0, single_p=0.1, out_modes=("abs", "abs", "rel", 
         c["input_name"] = rng.choice(["single.cmake", "My.File.cmake", "noext", "UP.CMAKE", "a-b.cmake"])
     else:
         c["tree"] = treeh.gen_tree(rng, max_depth=rng.choice([1, 2, 3, 3]), ext_variants=ext_variants)
+        special = rng.random() < 0.12
+        if special:
+            # an input directory without a CMake file of its own (known finding F23 territory: outside
+            # tree_ok, so only the correspondence with the model applies there), with chains of
+            # directories that have no CMake file but CMake files further down
+            c["tree"] = [n for n in c["tree"] if not (n["kind"] == "f" and is_cmake(n["name"]))]
+            deep = dict(name="third_party", kind="d", children=[
+                dict(name="README.md", kind="f", content=b"x\n"),
+                dict(name="vendor", kind="d", children=[
+                    dict(name="v.cmake", kind="f", content=treeh.simple_module(rng, "v"))])])
+            if not any(n["name"] == "third_party" for n in c["tree"]):
+                c["tree"].append(deep)
         c["input_name"] = rng.choice(["in", "in", "proj", "my.proj", "Tree-1"])
     c["recursive"] = rng.random() < 0.6
     c["auto_exclude"] = rng.random() < 0.7
+    if "tree" in c and special and rng.random() < 0.7:
+        c["recursive"] = c["auto_exclude"] = True
     pm = rng.random()
     if pm < 0.25:
         c["prefix_cli"] = rng.choice(["pfx", "My Project", "a.b", "P"])
